@@ -247,7 +247,7 @@ def run_sched_property(prop, prop_files, targets, name_re, gen, tier, seed, repl
         cov = history_stage(rep, proof["ok"], sc, lib, prop, "sched", "h_sched.c", gen, tier, seed, replay=replay, rule=rule,
                             proof_log=proof["log"], prop_file=",".join(prop_files), known_patterns=known_patterns,
                             nohooks_reps=3 if tier == "quick" else 2,
-                            sweep_kinds=(40, 30, 34, 42), sweep_n=30 if tier == "quick" else 200)
+                            sweep_kinds=(40, 30, 34, 42, 33), sweep_n=30 if tier == "quick" else 200)
     return rep.finish(proof, cov)
 
 
